@@ -12,7 +12,7 @@ import (
 func init() { register("C03", checkC03) }
 
 func checkC03(r *Run) {
-	r.Explain = "Decides the ordering / exactly-once content of the event layout as a per-step induction over logger derivation: NEWEV in (*Logger).newEvent every event path writes the level field (only under level != NoLevel && LevelFieldName != \"\", with LevelFieldMarshalFunc(level)) before splicing the logger context, stores e.ch = l.hooks, and nothing else touches the buffer; MSG in (*Event).msg one loop over all of e.ch runs Hook.Run(e, e.level, msg) exactly once per hook with the unmodified message and no early exit, the message field is appended after the loop only under msg != \"\", then write() is called once; HOOKS Hook.Run is invoked only from msg and the adaptor types, Event.ch is stored only by the two newEvent functions, Logger.Hook returns the receiver's hooks followed by the new ones in a fresh slice, Context.Timestamp/Caller register through Hook; LevelHook pairs each level constant with its own field and forwards (e, level, message); WRITE the writer call is control-dependent on e.level != Disabled (discarded events are not written). The buffer typestate A2 (as in C01) is run here too: members are whole and separated exactly once, an empty embedded object adds nothing. ISOL (shared with C05/C18) per-request loggers; UPDCTX UpdateContext skips the update only for the shared disabled logger, whatever the level; PURE no encoder function writes into an input slice (AppendObjectData splices the logger's context without touching it). A12 copy (shared with C05): Output gives the new logger its own context array. HOOKS adds-its-field-on-every-path: timestampHook.Run calls e.Timestamp() on every path."
+	r.Explain = "Decides the ordering / exactly-once content of the event layout as a per-step induction over logger derivation: NEWEV in (*Logger).newEvent every event path writes the level field (only under level != NoLevel && LevelFieldName != \"\", with LevelFieldMarshalFunc(level)) before splicing the logger context, stores e.ch = l.hooks, and nothing else touches the buffer; MSG in (*Event).msg one loop over all of e.ch runs Hook.Run(e, e.level, msg) exactly once per hook with the unmodified message and no early exit, the message field is appended after the loop only under msg != \"\", then write() is called once; HOOKS Hook.Run is invoked only from msg and the adaptor types, Event.ch is stored only by the two newEvent functions, Logger.Hook returns the receiver's hooks followed by the new ones in a fresh slice, Context.Timestamp/Caller register through Hook; LevelHook pairs each level constant with its own field and forwards (e, level, message); WRITE the writer call is control-dependent on e.level != Disabled (discarded events are not written). The buffer typestate A2 (as in C01) is run here too: members are whole and separated exactly once, an empty embedded object adds nothing. ISOL (shared with C05/C18) per-request loggers; UPDCTX UpdateContext skips the update only for the shared disabled logger, whatever the level; PURE no encoder function writes into an input slice (AppendObjectData splices the logger's context without touching it). A12 copy (shared with C05): Output gives the new logger its own context array. HOOKS adds-its-field-on-every-path: timestampHook.Run calls e.Timestamp() on every path. HOOKS registers-on-every-path: Context methods that register a hook reach Logger.Hook on every path."
 	r.NotDec = "Nothing value-level is involved. User hooks are assumed to act through the Event API (contract summary of A2, checked in C01). Context field order inside one logger is the append order of the buffer (C01/C05)."
 	r.Assume = []string{"user hooks act on the event only through its exported methods"}
 	p := r.Use("J")
